@@ -281,9 +281,43 @@ def make_globals(script, fault, supp, cmbase, log, limit=400):
 _MODULE = None
 
 
-def run_hy(text, script, fault, supp, cmbase, nv=4, wrap=None):
-    """Compile `text` with the real compiler and run it; returns obs dict or
-    {'compile_error': ...}."""
+def _execute(run_code, G, log, nv):
+    """Run `run_code(G)` (returns the final value) under the watchdog and project the observables."""
+    import signal
+    import hy
+
+    def _alarm(*a):
+        raise Runaway()
+    old = signal.signal(signal.SIGALRM, _alarm)
+    signal.setitimer(signal.ITIMER_REAL, 2.0)
+    try:
+        try:
+            v = run_code(G)
+        finally:
+            signal.setitimer(signal.ITIMER_REAL, 0)
+            signal.signal(signal.SIGALRM, old)
+        out = ["val", proj(v, G)]
+    except Runaway:
+        return {"runaway": True}
+    except RecursionError:
+        return {"runaway": True}
+    except Exception as x:
+        out = ["exc", exc_id(type(x), G)]
+        G["__last_exc__"] = x
+    gl = []
+    for n in NAMES[:nv]:
+        m = hy.mangle(n)
+        gl.append(proj(G[m], G) if m in G else ["absent", 0, []])
+    return {"log": list(log), "out": out, "globals": gl}
+
+
+def run_hy(text, script, fault, supp, cmbase, nv=4, mode="eval", keep=None):
+    """Compile `text` with the real compiler and run it.
+    mode "eval":    module statements + value of the last form (hy.eval style)
+    mode "module":  hy_compile as a module, executed directly (value not observed)
+    mode "unparse": same module, but ast.unparse -> ast.parse -> exec (hy2py path)
+    Returns the observation dict, or {'compile_error': ...} / {'runaway': True}.
+    `keep`, if a dict, receives the compiled tree / source."""
     import hy
     from hy.compiler import hy_compile
     from hy.reader import read_many
@@ -295,20 +329,30 @@ def run_hy(text, script, fault, supp, cmbase, nv=4, wrap=None):
     G = mod.__dict__
     try:
         forms = hy.models.Lazy(read_many(text, filename="<prog>", skip_shebang=False))
-        tree, expr = hy_compile(forms, mod, get_expr=True, filename="<prog>", source=text)
-        c1 = compile(tree, "<prog>", "exec")
-        c2 = compile(expr, "<prog>", "eval")
+        if mode == "eval":
+            tree, expr = hy_compile(forms, mod, get_expr=True, filename="<prog>", source=text)
+            c1 = compile(tree, "<prog>", "exec")
+            c2 = compile(expr, "<prog>", "eval")
+        else:
+            tree = hy_compile(forms, mod, filename="<prog>", source=text)
+            if mode == "unparse":
+                src = pyast.unparse(tree)
+                if keep is not None:
+                    keep["py"] = src
+                try:
+                    tree2 = pyast.parse(src)
+                except SyntaxError as x:
+                    return {"unparse_error": f"{x}", "py": src}
+                c1 = compile(tree2, "<prog>", "exec")
+            else:
+                c1 = compile(tree, "<prog>", "exec")
+        if keep is not None:
+            keep["tree"] = tree
     except Exception as x:  # compile-time failure
-        return {"compile_error": f"{type(x).__name__}: {x}"}
-    try:
+        return {"compile_error": f"{type(x).__name__}: {x}", "exc_class": type(x).__name__,
+                "is_syntax_error": isinstance(x, SyntaxError)}
+
+    def go(G):
         exec(c1, G)
-        v = eval(c2, G)
-        out = ["val", proj(v, G)]
-    except Runaway:
-        return {"runaway": True}
-    except RecursionError:
-        return {"runaway": True}
-    except Exception as x:
-        out = ["exc", exc_id(type(x), G)]
-    gl = [proj(G[n], G) if n in G else ["absent", 0, []] for n in NAMES[:nv]]
-    return {"log": log, "out": out, "globals": gl}
+        return eval(c2, G) if mode == "eval" else None
+    return _execute(go, G, log, nv)
